@@ -181,3 +181,7 @@ func ZZ_C14_store_collapsing_copy() {
 func ZZ_C14_merge_argument_independent_pag()    { zzC02Matrix(2, 2) }
 func ZZ_C14_merge_argument_independent_dense()  { zzC02Matrix(0, 0) }
 func ZZ_C14_merge_argument_independent_sparse() { zzC02Matrix(1, 1) }
+
+// C11: sketches whose weights were scaled (round 2): the paginated store's Reweight with entries still buffered
+func ZZ_C11_store_pag_reweight_buffer_only()      { zzC04PagCopyClearReweight(1) }
+func ZZ_C11_store_pag_reweight_buffer_and_pages() { zzC04PagCopyClearReweight(3) }
